@@ -188,4 +188,15 @@ theorem alias_distinct_iff_initials_partial (m : Str) (c1 c2 pk1 pk2 : List Str)
     exact List.append_cancel_right this
   · intro h; rw [h]
 
+/-! ### a proto-plus dependency type in a SUB-package of a versioned package (finding `proto-plus-dep:sub-package-of-versioned`, C12) -/
+
+/-- `convert_to_versioned_package` only recognises the version as the LAST segment: for `acme.dep.v1.sub` it answers the package
+unchanged, so the import is `from acme.dep.v1.sub.types import common`, while the dependency's own library (this generator, own-API
+branch: module namespace + `dep_v1` + sub-package + `types`) ships `….dep_v1.sub.types` — replayed on the real `Address` objects -/
+theorem versioned_package_subpackage_counterexample :
+    address_versioned_package ["acme".toList, "dep".toList, "v1".toList, "sub".toList]
+      = ["acme".toList, "dep".toList, "v1".toList, "sub".toList] ∧
+    address_versioned_package ["acme".toList, "dep".toList, "v1".toList] = ["acme".toList, "dep_v1".toList] := by
+  decide
+
 end GapicModel.Lemmas.AddressT
